@@ -189,10 +189,12 @@ class GenericRun(ComputeRun):
     member per team: post()[i][0], prior[i][0]; spec() is the published update on the aggregates.
     Raises symrt.UncutLoop when a loop over a team is outside the rule (proof not attempted)."""
 
-    def __init__(self, model, n, ranks, gamma_mode="default", safety=False):
+    def __init__(self, model, n, ranks, gamma_mode="default", safety=False, order=None):
+        """order: the presentation handed to _compute lists team k of the symbolic game at position
+        order.index(k) (ranks are those of the presentation); results are mapped back to team index"""
         from .. import teams as T
         self.model, self.sizes, self.ranks, self.gamma_mode = model, (1,) * n, ranks, gamma_mode
-        self.order, self.player_order = list(range(n)), {}
+        self.order, self.player_order = (list(order) if order is not None else list(range(n))), {}
         S = self.S = T.scratch(model)
         self.loops_rewritten = list(S.loops_rewritten)
         self.tm = game.stub_tm_real(S)
@@ -217,12 +219,18 @@ class GenericRun(ComputeRun):
             pristine = _copy.deepcopy(ts)
 
             def one_path(i):
-                pres = ts if i == 0 else _copy.deepcopy(pristine)
+                base = ts if i == 0 else _copy.deepcopy(pristine)
+                pres = [base[k] for k in self.order]
                 if gamma_mode == "custom":
                     code_g.teams = pres
                 return call(m._compute, pres, list(ranks) if ranks is not None else None)
             out = ctx.merged(one_path)
             T.guard(out)
+            if out[0] == "return" and self.order != list(range(n)) and isinstance(out[1], list) and len(out[1]) == n:
+                back = [None] * n
+                for pos, k in enumerate(self.order):
+                    back[k] = out[1][pos]
+                out = ("return", back)
             if out[0] == "split":
                 for (_c, o) in out[1]:
                     T.guard(o)
